@@ -116,6 +116,20 @@ def make_enum_types(P, case):
     return out
 
 
+_CENTERED = {}
+
+
+def _centered_type(P):
+    """a user-defined field type (the documented extension point): values as the default type shows them, centred"""
+    if _CENTERED.get("P") is not P:
+        class Centered(P.FieldType):
+            def make_desired_cell_ch_chunks(self, value, fmt_modifier, field_palette):
+                chunks, _align = super().make_desired_cell_ch_chunks(value, fmt_modifier, field_palette)
+                return chunks, P.ALIGN_CENTER
+        _CENTERED.update(P=P, cls=Centered)
+    return _CENTERED["cls"]
+
+
 def ctor_kwargs(P, case, fmt=None, use_case_fmt=True):
     kw = {}
     if case["kind"] == "tuple":
@@ -127,6 +141,9 @@ def ctor_kwargs(P, case, fmt=None, use_case_fmt=True):
     if case.get("titles"):
         kw["fields_titles"] = {k: v for k, v in case["titles"].items()}
     ft = make_enum_types(P, case)
+    for fn in case.get("centered") or []:
+        if fn not in ft:
+            ft[fn] = _centered_type(P)()
     if ft:
         kw["fields_types"] = ft
     if case.get("header") is not None:
@@ -155,7 +172,8 @@ def build(P, case):
         # every table through fmt_obj= (each table gets a clone)
         import json
         kw = ctor_kwargs(P, case)
-        key = json.dumps([case["kind"], case["fields"], kw.get("fmt"), case.get("titles"), case.get("enums")], sort_keys=True,
+        key = json.dumps([case["kind"], case["fields"], kw.get("fmt"), case.get("titles"), case.get("enums"),
+                          case.get("centered")], sort_keys=True,
                          default=str)
         ent = _TEMPLATES.get(key)
         records = make_records(case)
@@ -587,6 +605,10 @@ def st_table_case(draw, max_records=40, allow_dict=True, allow_enum=True, allow_
         names = sorted({fields[c["f"]] for c in vis})
         if len(names) > 1:
             case["skip"] = [draw(st.sampled_from(names))]
+    if kind != "tuple_nofields" and draw(st.integers(0, 5)) == 0:
+        plain = [fn for fn in fields if fn not in enums]
+        if plain:
+            case["centered"] = draw(st.lists(st.sampled_from(plain), min_size=1, max_size=2, unique=True))
     if nrec >= 2 and draw(st.integers(0, 4)) == 0:
         # the same row object at several positions of the records list (rows taken from a small pool of objects)
         npool = draw(st.integers(1, 3))
